@@ -118,12 +118,14 @@ def r3(ctx):
     size = fa.arg_origin(a, 1)
     fill = fa.arg_origin(a, 0)
     rts = roots(size)
-    has_const = ("const", "oplog::HEADER_SIZE") in rts
+    HS = const_lookup(ctx, "oplog::HEADER_SIZE")
+    is_hs = lambda t_: t_ == ("const", "oplog::HEADER_SIZE") or (HS is not None and t_ == ("lit", HS))
+    has_const = any(is_hs(r_) for r_ in rts) and HS == 4096
     # the assignment of HEADER_SIZE lies on the clear_traces edge and cannot be bypassed
     assigns = []
     for bb in fa.nodes:
         for si, st in enumerate(fa.blocks[bb].stmts):
-            if st["k"] == "assign" and not st["place"]["p"] and fa.origin_rvalue(st["rv"], bb, si) == ("const", "oplog::HEADER_SIZE"):
+            if st["k"] == "assign" and not st["place"]["p"] and is_hs(fa.origin_rvalue(st["rv"], bb, si)):
                 assigns.append((bb, si))
     forced = any(fa.dominates(tr, bb) and not fa.can_reach(tr, a, avoiding=[bb]) or (bb == tr) for bb, si in assigns)
     # no redefinition of the size between that assignment and the allocation
@@ -233,9 +235,15 @@ def r6(ctx):
     if not need(ctx, P, rule, "Hypercore::new: Hypercore { .. } construction", aggs):
         return
     kp = agg_field(aggs[0], "key_pair")
+    # `let OplogOpenOutcome { mut header, .. } = ..` makes the header a &mut-escaping variable: follow it
+    # to its initial value, provided key_pair is not assigned through it in this function
+    if resolve_mutlocal(fa, kp) is not None and not [x for x in assign_sites_prefix(fa, "~Header.key_pair")]:
+        kp = resolve_mutlocal(fa, kp)
     okp = term_has_call(kp, OPLOG_OPEN) is not None and all((r[0] == "field" and r[2] == "key_pair" and strip(r[1])[0] == "field" and strip(r[1])[2] == "header") for r in roots(kp))
     ctx.check(P, rule, "identity comes from the stored header", okp, "Hypercore.key_pair = opened header.key_pair", "Hypercore.key_pair is %s" % term_str(kp)[:160])
     hd = agg_field(aggs[0], "header")
+    if resolve_mutlocal(fa, hd) is not None:
+        hd = resolve_mutlocal(fa, hd)
     ctx.check(P, rule, "in-memory header is the opened header", term_has_call(hd, OPLOG_OPEN) is not None and all(r[0] == "field" and r[2] == "header" for r in roots(hd)), "Hypercore.header = outcome.header", "Hypercore.header is %s" % term_str(hd)[:120])
     fi = ctx.fn(INFO)
     if need(ctx, P, rule, INFO, fi):
